@@ -919,7 +919,12 @@ class SgzReader(object):
         self.read_variant_headers(include_padding=True, tracefields=[segyio.tracefield.TraceField(tracefield)])
         if tracefield not in self.variant_headers:
             # A field with the same value in every trace is kept in the header template, not as an array
-            return np.full(self.header_entry_length_bytes // 4, self.segy_traceheader_template[tracefield], dtype=np.int32)
+            values = np.full(self.header_entry_length_bytes // 4, self.segy_traceheader_template[tracefield], dtype=np.int32)
+            if self.is_3d and not self.structured:
+                # Grid positions of an irregular survey which hold no trace are zero, as in the stored arrays
+                self.get_unstructured_mask()
+                values[~self.mask] = 0
+            return values
         return self.variant_headers[tracefield]
 
     def get_tracefield_values(self, tracefield):
